@@ -85,12 +85,19 @@ def alpha_axis(axis):
     }
 
 
+def pid(value):
+    """Projection of a region id that keeps JSON types apart: 7 and "7" are different ids."""
+    if isinstance(value, str):
+        return value
+    return "#" + repr(value)
+
+
 def alpha_region(region):
     """Region -> native integer record."""
     if hasattr(region, "cx"):
-        return {"t": "circ", "id": str(region.id), "a": nat(region.cx), "b": nat(region.cy),
+        return {"t": "circ", "id": pid(region.id), "a": nat(region.cx), "b": nat(region.cy),
                 "c": nat(region.r), "d": 0}
-    return {"t": "rect", "id": str(region.id), "a": nat(region.x1), "b": nat(region.y1),
+    return {"t": "rect", "id": pid(region.id), "a": nat(region.x1), "b": nat(region.y1),
             "c": nat(region.x2), "d": nat(region.y2)}
 
 
